@@ -322,13 +322,18 @@ harness!(c08_unary_minus_float, {
 });
 // =============================================================== C08/C04: fold path == exec path
 macro_rules! fold_total {
-    ($name:ident, $m:ident, $op:expr) => {
+    ($name:ident, $shape:ident, $m:ident, $op:expr) => {
+        // semantic clause: folding two constants gives what exec gives
         harness!($name, {
             let (a, b): (i64, i64) = (kani::any(), kani::any());
             let folded = obs_ins_own($m::create_from_instructions(int(a), int(b)));
             let run = obs($m::exec(Variable::Int(a), Variable::Int(b)));
             assert!(folded == run);
-            // a non-constant operand: rebuilt with the same operator and the same operands
+        });
+        // structural clause (sufficient for C04, not necessary): a non-constant operand is rebuilt
+        // with the same operator and the same operands
+        harness!($shape, {
+            let (a, b): (i64, i64) = (kani::any(), kani::any());
             let r = $m::create_from_instructions(Instruction::Break, int(b));
             let (t, l, rr, op) = obs_binop(&r);
             std::mem::forget(r);
@@ -340,21 +345,21 @@ macro_rules! fold_total {
         });
     };
 }
-fold_total!(c04_fold_add, add, BinOperator::Add);
-fold_total!(c04_fold_subtract, subtract, BinOperator::Subtract);
-fold_total!(c04_fold_multiply, multiply, BinOperator::Multiply);
-fold_total!(c04_fold_bitand, bitwise_and, BinOperator::BitwiseAnd);
-fold_total!(c04_fold_bitor, bitwise_or, BinOperator::BitwiseOr);
-fold_total!(c04_fold_xor, xor, BinOperator::Xor);
-fold_total!(c04_fold_greater, greater, BinOperator::Greater);
-fold_total!(c04_fold_greater_equal, greater_equal, BinOperator::GreaterOrEqual);
-fold_total!(c04_fold_lower, lower, BinOperator::Lower);
-fold_total!(c04_fold_lower_equal, lower_equal, BinOperator::LowerOrEqual);
-fold_total!(c04_fold_equal, equal, BinOperator::Equal);
-fold_total!(c04_fold_not_equal, not_equal, BinOperator::NotEqual);
+fold_total!(c04_fold_add, c04_foldshape_add, add, BinOperator::Add);
+fold_total!(c04_fold_subtract, c04_foldshape_subtract, subtract, BinOperator::Subtract);
+fold_total!(c04_fold_multiply, c04_foldshape_multiply, multiply, BinOperator::Multiply);
+fold_total!(c04_fold_bitand, c04_foldshape_bitand, bitwise_and, BinOperator::BitwiseAnd);
+fold_total!(c04_fold_bitor, c04_foldshape_bitor, bitwise_or, BinOperator::BitwiseOr);
+fold_total!(c04_fold_xor, c04_foldshape_xor, xor, BinOperator::Xor);
+fold_total!(c04_fold_greater, c04_foldshape_greater, greater, BinOperator::Greater);
+fold_total!(c04_fold_greater_equal, c04_foldshape_greater_equal, greater_equal, BinOperator::GreaterOrEqual);
+fold_total!(c04_fold_lower, c04_foldshape_lower, lower, BinOperator::Lower);
+fold_total!(c04_fold_lower_equal, c04_foldshape_lower_equal, lower_equal, BinOperator::LowerOrEqual);
+fold_total!(c04_fold_equal, c04_foldshape_equal, equal, BinOperator::Equal);
+fold_total!(c04_fold_not_equal, c04_foldshape_not_equal, not_equal, BinOperator::NotEqual);
 
 macro_rules! fold_partial {
-    ($name:ident, $m:ident, $op:expr, $early:expr, $ecode:expr, $cmp_all:expr) => {
+    ($name:ident, $shape:ident, $m:ident, $op:expr, $early:expr, $ecode:expr, $cmp_all:expr) => {
         harness!($name, {
             let (a, b): (i64, i64) = (kani::any(), kani::any());
             let folded = obs_ins_res($m::create_from_instructions(int(a), int(b)));
@@ -363,11 +368,26 @@ macro_rules! fold_partial {
             // equality of two symbolic 64-bit dividers does not finish in SAT; the value clause of the
             // fold path of / and % is a V obligation (divide.fold / modulo.fold), K compares b in {0,1,-1}
             if $cmp_all || b == 0 || b == 1 || b == -1 { assert!(folded == run); }
-            // constant rhs that makes EVERY evaluation fail => early error allowed, and only then
+            // a constant rhs with a non-constant lhs: an early error ONLY for an operation that fails
+            // whenever evaluated, and then the documented one
             let r = $m::create_from_instructions(Instruction::Break, int(b));
             let early: bool = ($early)(b);
             match &r {
                 Err(e) => assert!(early && err_code(e) == $ecode),
+                Ok(_) => {}
+            }
+            std::mem::forget(r);
+            let r = $m::create_from_instructions(int(a), Instruction::Continue);
+            assert!(r.is_ok());
+            std::mem::forget(r);
+        });
+        // structural (sufficient, not necessary): otherwise rebuilt with operands in place; the early error is taken
+        harness!($shape, {
+            let (a, b): (i64, i64) = (kani::any(), kani::any());
+            let r = $m::create_from_instructions(Instruction::Break, int(b));
+            let early: bool = ($early)(b);
+            match &r {
+                Err(_) => assert!(early),
                 Ok(i) => {
                     assert!(!early);
                     let (t, l, rr, op) = obs_binop(i);
@@ -387,10 +407,10 @@ macro_rules! fold_partial {
         });
     };
 }
-fold_partial!(c04_fold_divide, divide, BinOperator::Divide, |b: i64| b == 0, E_ZDIV, false);
-fold_partial!(c04_fold_modulo, modulo, BinOperator::Modulo, |b: i64| b == 0, E_ZMOD, false);
-fold_partial!(c04_fold_lshift, lshift, BinOperator::LShift, |b: i64| !(0 <= b && b <= 63), E_SHIFT, true);
-fold_partial!(c04_fold_rshift, rshift, BinOperator::RShift, |b: i64| !(0 <= b && b <= 63), E_SHIFT, true);
+fold_partial!(c04_fold_divide, c04_foldshape_divide, divide, BinOperator::Divide, |b: i64| b == 0, E_ZDIV, false);
+fold_partial!(c04_fold_modulo, c04_foldshape_modulo, modulo, BinOperator::Modulo, |b: i64| b == 0, E_ZMOD, false);
+fold_partial!(c04_fold_lshift, c04_foldshape_lshift, lshift, BinOperator::LShift, |b: i64| !(0 <= b && b <= 63), E_SHIFT, true);
+fold_partial!(c04_fold_rshift, c04_foldshape_rshift, rshift, BinOperator::RShift, |b: i64| !(0 <= b && b <= 63), E_SHIFT, true);
 
 harness!(c04_fold_float_ops, {
     let (a, b): (f64, f64) = (kani::any(), kani::any());
